@@ -336,7 +336,15 @@ impl<'a> GeneratorState<'a> {
     fn generate_deref(&mut self, expr: &Expr, pos: usize) -> Result<ExprType, Error> {
         match expr {
             Expr::Identifier(var, sub) => {
-                let v = self.compiler_state.get_variable(var);
+                // X and Y (and unknown names) are not in the variables table
+                let v = match self.compiler_state.variables.get(var) {
+                    Some(v) => v,
+                    None => {
+                        return Err(self
+                            .compiler_state
+                            .syntax_error(&format!("Unknown identifier {}", var), pos))
+                    }
+                };
                 if v.var_type == VariableType::CharPtr {
                     let sub_output = self.generate_expr(sub, pos, false, false)?;
                     match sub_output {
@@ -383,7 +391,15 @@ impl<'a> GeneratorState<'a> {
     fn generate_addr(&mut self, expr: &Expr, pos: usize) -> Result<ExprType, Error> {
         match expr {
             Expr::Identifier(var, sub) => {
-                let v = self.compiler_state.get_variable(var);
+                // X and Y (and unknown names) are not in the variables table
+                let v = match self.compiler_state.variables.get(var) {
+                    Some(v) => v,
+                    None => {
+                        return Err(self
+                            .compiler_state
+                            .syntax_error(&format!("Unknown identifier {}", var), pos))
+                    }
+                };
                 if v.var_type == VariableType::Char {
                     let sub_output = self.generate_expr(sub, pos, false, false)?;
                     match sub_output {
@@ -422,7 +438,15 @@ impl<'a> GeneratorState<'a> {
                 }
             }
             Expr::Identifier(var, _) => {
-                let v = self.compiler_state.get_variable(var);
+                // X and Y (and unknown names) are not in the variables table
+                let v = match self.compiler_state.variables.get(var) {
+                    Some(v) => v,
+                    None => {
+                        return Err(self
+                            .compiler_state
+                            .syntax_error(&format!("Unknown identifier {}", var), pos))
+                    }
+                };
                 match v.var_type {
                     VariableType::CharPtr => {
                         if v.var_const {
